@@ -25,7 +25,7 @@ def one(sid):
     with lock:
         lab = free.pop()
     try:
-        p = subprocess.run(["tools/seedlab.sh", sid, "quick"] + cs, cwd="/verif", env=dict(os.environ, SEEDLAB=lab), stdout=subprocess.PIPE, stderr=subprocess.STDOUT, text=True)
+        p = subprocess.run(["tools/seedlab.sh", sid, "quick"] + cs, cwd="/verif", env=dict(os.environ, SEEDLAB=lab), stdout=subprocess.PIPE, stderr=subprocess.STDOUT, text=True, errors="replace")
         res = {}
         for line in p.stdout.split("\n"):
             m = re.match(r"seed=(\S+) check=(\S+) tier=quick exit=(\d+)\s+(\d+) VIOLATION lines, (\d+) INCONCLUSIVE", line)
@@ -37,7 +37,7 @@ def one(sid):
             rtxt = meta["checks_run"] if isinstance(meta["checks_run"], str) else json.dumps(meta["checks_run"])
             more = [c for c in dict.fromkeys(re.findall(r"C\d\d", rtxt)) if c not in cs][:2]
             if more:
-                p = subprocess.run(["tools/seedlab.sh", sid, "quick"] + more, cwd="/verif", env=dict(os.environ, SEEDLAB=lab), stdout=subprocess.PIPE, stderr=subprocess.STDOUT, text=True)
+                p = subprocess.run(["tools/seedlab.sh", sid, "quick"] + more, cwd="/verif", env=dict(os.environ, SEEDLAB=lab), stdout=subprocess.PIPE, stderr=subprocess.STDOUT, text=True, errors="replace")
                 for line in p.stdout.split("\n"):
                     m = re.match(r"seed=(\S+) check=(\S+) tier=quick exit=(\d+)\s+(\d+) VIOLATION lines, (\d+) INCONCLUSIVE", line)
                     if m:
